@@ -113,6 +113,8 @@ class Arr:
                     inst.o = xt.choose(["X", "Y"])
                 if xt is not None and key in ("O", "P") and xt.chance(12):
                     inst.k = 9  # this instance's output hook hides the object: it returns None
+                if xt is not None and key in ("In.f", "In.g", "In.l", "In.sub") and xt.chance(10):
+                    inst.k = 8  # this instance's input hook redacts the value: it returns None
                 out.append(inst)
         self.at[key] = out
         return out
@@ -163,6 +165,8 @@ def make_directive(dname, sname):
         async def on_post_input_coercion(self, da, nxt, parent_node, value, ctx):
             await self._pre("input", da, ctx)
             v = await nxt(parent_node, value, ctx)
+            if da.get("k") == 8:
+                return None  # what a hook returns is what the next stage sees: the value is null from here on
             return trail(da["n"], tag_in(da["n"], v))
 
         async def on_argument_execution(self, da, nxt, parent_node, arg_def, arg_node, value, ctx):
@@ -286,7 +290,7 @@ class Expect:
     def apply(self, key, kind, fn, v):
         for inst in reversed(self.a.at.get(key, [])):
             self.fire(kind, inst)
-            v = fn(inst.id, v)
+            v = None if (kind == "input" and inst.k == 8) else fn(inst.id, v)
         return v
 
     def in_S(self, raw):
